@@ -11,7 +11,7 @@ const requireLibs = "CTree.CTreeModel Path.PathModel Cache.CacheModel Cache.Mult
 const caseTypeName = "c15case"
 const checkFnName = "check_all15"
 
-func wrapCase(term string) string { return "CCache " + term }
+func wrapCase(t *termer, c *Case, term string) string { return "CCache " + term }
 
 // the [mutate; announce] atomicity family belongs to C14
 func addConcCase(e *emitter, c *Case) {}
